@@ -19,6 +19,8 @@ fn replay_fn(prop: &str) -> Option<fn(&str, &serde_json::Value) -> Verdict> {
         "C01" => Some(props::c01::replay),
         "C02" => Some(props::c02::replay),
         "C11" => Some(props::c11::replay),
+        "C03" => Some(props::c03::replay),
+        "C04" => Some(props::c04::replay),
         "C05" => Some(props::c05::replay),
         "C07" => Some(props::c07::replay),
         _ => None,
@@ -52,6 +54,8 @@ fn main() {
                 "C01" => props::c01::run(&ctx),
                 "C02" => props::c02::run(&ctx),
                 "C11" => props::c11::run(&ctx),
+                "C03" => props::c03::run(&ctx),
+                "C04" => props::c04::run(&ctx),
                 "C05" => props::c05::run(&ctx),
                 "C07" => props::c07::run(&ctx),
                 _ => {
@@ -86,6 +90,17 @@ fn main() {
                 let path = dir.join(format!("{}-{}.json", prefix, id));
                 std::fs::write(&path, serde_json::to_string_pretty(&body).unwrap()).unwrap();
                 println!("{} -> {} ({})", id, sig, path.display());
+            }
+        }
+        "c03-table" => {
+            props::c03::RACING_OK.store(false, std::sync::atomic::Ordering::Relaxed);
+            for (step, nth, v) in props::c03::enumerate_steps(true) {
+                let s = match v {
+                    Verdict::Pass => "pass".to_string(),
+                    Verdict::Fail { sig, .. } => format!("FAIL {}", sig),
+                    Verdict::Discard(r) => format!("discard {}", r),
+                };
+                println!("{:24} nth={} {}", step, nth, s);
             }
         }
         "replay" => {
